@@ -51,6 +51,14 @@ type Case struct {
 	FineRate      int64  `json:"fine_rate"`  // MSM7
 	ViaDecoder    bool   `json:"via_decoder"`
 	Debug         bool   `json:"debug"`
+	// Fields of the message that the quantities do not depend on (via decoder): the satellite's extended
+	// information (MSM7; for GLONASS it holds the frequency channel number), the multiple-message flag, zero
+	// padding bytes after the last cell, lock-time indicator and signal strength.
+	ExtInfo  uint `json:"ext_info"`
+	Multiple bool `json:"multiple_message"`
+	Pad      int  `json:"pad_bytes"`
+	Lock     uint `json:"lock"`
+	CNR      uint `json:"cnr"`
 }
 
 func rat(n, d int64) *big.Rat { return big.NewRat(n, d) }
@@ -119,9 +127,14 @@ func build(c Case) (*cellAPI, error) {
 	}
 	lambda := float64(cLight) / f
 	if c.ViaDecoder {
+		lock, cnr := c.Lock, c.CNR
+		if !c.MSM7 {
+			lock, cnr = lock&15, cnr&63
+		}
 		m := enc.MSM{Type: msm4Type[c.Constellation], StationID: 1, Timestamp: 1000, SatMask: 1 << 63, SigMask: 1 << (32 - c.SignalID), CellMask: []bool{true},
-			Sats: []enc.SatCell{{Whole: c.Whole, Frac: c.Frac, RangeRate: c.RoughRate}},
-			Sigs: []enc.SigCell{{RangeDelta: c.RangeDelta, PhaseDelta: c.PhaseDelta, Lock: 1, CNR: 30, RateDelta: c.FineRate}}}
+			Multiple: c.Multiple, Pad: c.Pad,
+			Sats: []enc.SatCell{{Whole: c.Whole, Frac: c.Frac, RangeRate: c.RoughRate, ExtInfo: c.ExtInfo & 15}},
+			Sigs: []enc.SigCell{{RangeDelta: c.RangeDelta, PhaseDelta: c.PhaseDelta, Lock: lock, CNR: cnr, RateDelta: c.FineRate}}}
 		if c.MSM7 {
 			m.Type += 3
 			d, err := msg7.GetMessage(m.Frame(), lv)
@@ -145,7 +158,7 @@ func build(c Case) (*cellAPI, error) {
 		return &cellAPI{cell.RangeInMetres, cell.PhaseRange, nil, nil, cell.GetAggregateRange, cell.GetAggregatePhaseRange, nil, cell.String, d.Satellites[0].String, cell.Wavelength}, nil
 	}
 	if c.MSM7 {
-		s := sat7.New(1, c.Whole, c.Frac, 0, int(c.RoughRate), lv)
+		s := sat7.New(1, c.Whole, c.Frac, c.ExtInfo&15, int(c.RoughRate), lv)
 		cell := sig7.New(c.SignalID, s, int(c.RangeDelta), int(c.PhaseDelta), 1, false, 30, int(c.FineRate), lambda, lv)
 		return &cellAPI{cell.RangeInMetres, cell.PhaseRange, cell.PhaseRangeRate, cell.PhaseRangeRateDoppler, cell.GetAggregateRange, cell.GetAggregatePhaseRange, cell.GetAggregatePhaseRangeRate, cell.String, s.String, lambda}, nil
 	}
@@ -388,6 +401,11 @@ func gen1(t *rapid.T) Case {
 		c.FineRate = signedField(t, 15, "fineRate", math.MinInt64)
 	}
 	c.ViaDecoder = rapid.IntRange(0, 3).Draw(t, "viaDecoder") == 0
+	c.ExtInfo = uint(rapid.IntRange(0, 15).Draw(t, "extInfo"))
+	c.Multiple = rapid.Bool().Draw(t, "multiple")
+	c.Pad = rapid.SampledFrom([]int{0, 0, 1, 2, 3, 4, 7, 8, 9, 22}).Draw(t, "pad")
+	c.Lock = uint(rapid.IntRange(0, 1023).Draw(t, "lock"))
+	c.CNR = uint(rapid.IntRange(0, 1023).Draw(t, "cnr"))
 	c.Debug = rapid.Bool().Draw(t, "debug")
 	return c
 }
